@@ -73,6 +73,7 @@ func Verif_C10_HandlerContext() {
 	withInterceptor := zv.Bool("with-interceptor")
 	withDeadline := zv.Bool("with-deadline")
 	mdVal := zv.String("md-value", zv.Param("mdcap", 1))
+	callerMutates := zv.Bool("caller-mutates-metadata-after-the-call")
 
 	callerCtx := context.Background()
 	var dl time.Time
@@ -106,6 +107,7 @@ func Verif_C10_HandlerContext() {
 		zv.Assert(len(in["k"]) == 2 && in["k"][0] == mdVal && in["k"][1] == "second", "incoming-metadata-equals-callers-outgoing")
 		zv.Assert(len(in["other-bin"]) == 1 && in["other-bin"][0] == "\x00\xff", "binary-metadata-byte-exact")
 		zv.Assert(len(in["outer-in"]) == 0, "enclosing-handlers-incoming-metadata-not-inherited")
+		zv.Assert(len(in["added-later"]) == 0, "callers-later-metadata-changes-invisible")
 		// mutating the handler's copy must not reach the caller
 		in["k"][0] = "mutated-by-handler"
 		in["added"] = []string{"x"}
@@ -158,6 +160,12 @@ func Verif_C10_HandlerContext() {
 		var cs grpc.ClientStream
 		cs, err = ch.NewStream(callerCtx, zzfix.StreamDescOf("S"), "/a/S")
 		if err == nil {
+			if callerMutates {
+				// the call has been made: what the caller does to its metadata map
+				// afterwards must not reach the handler
+				outMD["k"][0] = "changed-after-the-call"
+				outMD["added-later"] = []string{"x"}
+			}
 			cs.CloseSend()
 			err = cs.RecvMsg(&verifMsg{})
 			if err == io.EOF {
@@ -174,5 +182,90 @@ func Verif_C10_HandlerContext() {
 	zv.Observe("call", streaming, err == nil, checked)
 	zv.Assert(err == nil && checked == 1, "handler-ran-once")
 	// the caller's metadata is untouched by the handler's mutation
-	zv.Assert(len(outMD["k"]) == 2 && outMD["k"][0] == mdVal && len(outMD["added"]) == 0, "callers-metadata-unaffected-by-handler")
+	if !(streaming && callerMutates) {
+		zv.Assert(len(outMD["k"]) == 2 && outMD["k"][0] == mdVal && len(outMD["added"]) == 0, "callers-metadata-unaffected-by-handler")
+	}
+}
+
+type verifNestedKey struct{}
+
+// Verif_C10_NestedCall: a handler makes another in-process call with its own
+// handler context (plus a value of its own and outgoing metadata of its own). The
+// inner handler must see none of the outer handler's context values, not the outer
+// call's incoming metadata, and exactly the outgoing metadata of the nested call.
+func Verif_C10_NestedCall() {
+	innerStreaming := zv.Bool("inner-call-streaming")
+	outerStreaming := zv.Bool("outer-call-streaming")
+	innerHasMD := zv.Bool("nested-call-has-outgoing-metadata")
+	hooks := &verifHooks{}
+	var ch *Channel
+	innerChecked := 0
+	checkInner := func(ctx context.Context) {
+		innerChecked++
+		zv.Assert(ctx.Value(verifNestedKey{}) == nil, "inner-handler-sees-no-value-of-the-outer-handler")
+		zv.Assert(ctx.Value("client-key") == nil, "inner-handler-sees-no-value-of-the-original-caller")
+		in, _ := metadata.FromIncomingContext(ctx)
+		zv.Assert(len(in["outer-md"]) == 0, "outer-calls-metadata-not-inherited-by-the-nested-call")
+		if innerHasMD {
+			zv.Assert(len(in["inner-md"]) == 1 && in["inner-md"][0] == "i", "inner-handler-sees-the-nested-calls-metadata")
+		} else {
+			zv.Assert(len(in["inner-md"]) == 0, "inner-handler-sees-no-metadata")
+		}
+		_, hasOut := metadata.FromOutgoingContext(ctx)
+		zv.Assert(!hasOut, "inner-handler-has-no-outgoing-metadata")
+		cc := ClientContext(ctx)
+		zv.Assert(cc != nil && cc.Value(verifNestedKey{}) == "outer-value", "client-context-of-the-nested-call-is-the-outer-handlers-context")
+	}
+	nested := func(ctx context.Context) error {
+		ctx = context.WithValue(ctx, verifNestedKey{}, "outer-value")
+		if innerHasMD {
+			ctx = metadata.NewOutgoingContext(ctx, metadata.Pairs("inner-md", "i"))
+		}
+		if !innerStreaming {
+			return ch.Invoke(ctx, "/b/U", &verifMsg{}, &verifMsg{})
+		}
+		cs, err := ch.NewStream(ctx, zzfix.StreamDescOf("S"), "/b/S")
+		if err != nil {
+			return err
+		}
+		cs.CloseSend()
+		if e := cs.RecvMsg(&verifMsg{}); e != io.EOF {
+			return e
+		}
+		return nil
+	}
+	hooks.Unary = func(tag string, ctx context.Context, req *verifMsg) (*verifMsg, error) {
+		if tag == "b/U" {
+			checkInner(ctx)
+			return &verifMsg{}, nil
+		}
+		return &verifMsg{}, nested(ctx)
+	}
+	hooks.Stream = func(tag string, ss grpc.ServerStream) error {
+		if tag == "b/S" {
+			checkInner(ss.Context())
+			return nil
+		}
+		return nested(ss.Context())
+	}
+	ch = verifChannel(hooks)
+	ctx := context.WithValue(context.Background(), "client-key", "client-value")
+	ctx = metadata.NewOutgoingContext(ctx, metadata.Pairs("outer-md", "o"))
+	var err error
+	if !outerStreaming {
+		err = ch.Invoke(ctx, "/a/U", &verifMsg{}, &verifMsg{})
+	} else {
+		var cs grpc.ClientStream
+		cs, err = ch.NewStream(ctx, zzfix.StreamDescOf("S"), "/a/S")
+		if err == nil {
+			cs.CloseSend()
+			err = cs.RecvMsg(&verifMsg{})
+			if err == io.EOF {
+				err = nil
+			}
+		}
+	}
+	zv.Reach("nested-call-made")
+	zv.Observe("nested", outerStreaming, innerStreaming, err == nil, innerChecked)
+	zv.Assert(err == nil && innerChecked == 1, "nested-call-ran-once")
 }
